@@ -19,6 +19,8 @@ import (
 	"golang.org/x/tools/go/packages"
 	"golang.org/x/tools/go/ssa"
 	"golang.org/x/tools/go/ssa/ssautil"
+
+	"gfs3check/internal/inline"
 )
 
 // ModPath is the module path of the analysed repository.
@@ -59,6 +61,24 @@ type Program struct {
 	// ExtraEnv is the extra environment the tree was loaded with (GOARCH=386,
 	// GOOS=windows in the thorough platform matrix); empty for the host load.
 	ExtraEnv []string
+	// Inline reports which helper functions outside the baseline inventory were
+	// expanded into their callers before SSA construction (internal/inline).
+	Inline *inline.Result
+}
+
+// NoInline disables the helper inlining (used to produce the inventory).
+var NoInline = false
+
+// Inventory lists the functions declared in the module at root (baseline format).
+func Inventory(root string) ([]string, error) {
+	env := append(os.Environ(),
+		"GOFLAGS=-mod=mod", "GOPROXY=off", "GOSUMDB=off", "GOWORK=off", "GOTOOLCHAIN=local")
+	cfg := &packages.Config{Mode: packages.LoadAllSyntax, Dir: root, Env: env}
+	pkgs, err := packages.Load(cfg, "./...")
+	if err != nil {
+		return nil, err
+	}
+	return inline.Inventory(pkgs, ModPath), nil
 }
 
 // Load type-checks and builds SSA for the working tree at root.
@@ -92,7 +112,16 @@ func Load(root string, extraEnv ...string) (*Program, error) {
 	if len(errs) > 0 {
 		return nil, fmt.Errorf("type errors in analysed tree: %s", strings.Join(errs, "; "))
 	}
+	var inl *inline.Result
+	if !NoInline {
+		var ierr error
+		inl, ierr = inline.Apply(pkgs, ModPath, inline.Baseline())
+		if ierr != nil {
+			return nil, fmt.Errorf("helper inlining: %w", ierr)
+		}
+	}
 	p := &Program{
+		Inline:  inl,
 		Root:    root,
 		Pkgs:    map[string]*packages.Package{},
 		SSAPkgs: map[string]*ssa.Package{},
